@@ -3,7 +3,7 @@
     unique minimiser (C01) - every smoother variant ends with such a solve at a positive lambda. *)
 From Coq Require Import ZArith Reals Lra List.
 From HDC Require Import Base.Prelude Base.Ops Model.Ws2d Model.Smoothers Proofs.RSums Proofs.Penalty Proofs.Ws2dReal
-     Proofs.Ws2dLaws Proofs.Rounding Proofs.SmoothersProofs Proofs.C06Proofs.
+     Proofs.Ws2dLaws Proofs.Rounding Proofs.SmoothersProofs Proofs.C06Proofs Model.VCurve Proofs.C06Lift.
 Open Scope R_scope.
 
 Definition contract (y w : list R) (lam : R) : Prop :=
@@ -45,3 +45,17 @@ Theorem C06_rounding_offset : forall x (c : Z),
   (~ on_tie x -> rneR (x + IZR c) = (rneR x + c)%Z) /\ (Z.abs (rneR (x + IZR c) - (rneR x + c)) <= 1)%Z /\ rneR (IZR c) = c.
 Proof. intros x c. split; [apply rneR_shift|]. split; [apply rneR_shift_tie|apply rneR_int]. Qed.
 Print Assumptions C06_rounding_offset.
+
+(** lifted through lambda selection: the symmetric V-curve smoother reports the same lambda for y + c and moves the
+    curve by c (every grid lambda gives the same residuals and second differences, so the same V-curve) *)
+Theorem C06_vcurve_shift : forall (y w : list R) (c : R) llas,
+  length w = length y -> (4 <= length y)%nat ->
+  (forall i, (0 <= i < Z.of_nat (length y))%Z -> 0 <= Wk w i) ->
+  (exists p q, (0 <= p < q)%Z /\ (q < Z.of_nat (length y))%Z /\ 0 < Wk w p /\ 0 < Wk w q) ->
+  optv_core OpsR (shiftl c y) w llas =
+  match optv_core OpsR y w llas with
+  | VFit z lopt => VFit (shiftl c z) lopt
+  | r => r
+  end.
+Proof. intros y w c llas Hl Hn Wn W2. exact (optv_core_shift y w c Hl Hn Wn W2 llas). Qed.
+Print Assumptions C06_vcurve_shift.
